@@ -223,8 +223,16 @@ static void run_sort(Ctx& ctx, bool T) {
                 if (!ctx.take("median.near_dbl_max", P().kv("a", big[i]).kv("b", big[j]))) continue;
                 const double exact = (double)(((ld)big[i] + (ld)big[j]) / 2);
                 const double m2 = dsplib::median(mk({big[i], big[j]})), m4 = dsplib::median(mk({big[j], big[i], big[i], big[j]}));
-                ctx.note(m2 == exact && m4 == exact ? "median near DBL_MAX (a+b overflows): exact median returned"
-                                                     : (std::isinf(m2) || std::isinf(m4) ? "median near DBL_MAX (a+b overflows): inf returned (not judged)" : "median near DBL_MAX (a+b overflows): other value (not judged)"));
+                ctx.nontrivial();
+                dsplib::MedianFilter mf(4, big[i]);   // window after two pushes: {a, a, b, b}
+                const dsplib::arr_real yf = mf.process(mk({big[j], big[j]}));
+                const double m5 = yf[1];
+                ctx.note(m2 == exact && m4 == exact ? "median near DBL_MAX (a+b overflows): exact median returned" : "median near DBL_MAX (a+b overflows): other value");
+                // the true median (a+b)/2 of two finite values is finite and lies between them; tolerance 2 ulp of the result
+                auto ok = [&](double m) { return std::isfinite(m) && std::fabs(m - exact) <= 2 * (std::nextafter(std::fabs(exact), INFINITY) - std::fabs(exact)); };
+                if (!ok(m2) || !ok(m4) || !ok(m5))
+                    ctx.fail("median", fmt("median of {%.17g, %.17g} = %.17g, of four such values = %.17g, MedianFilter(4) on {a,a,b,b} = %.17g", big[i], big[j], m2, m4, m5),
+                             fmt("%.17g (the mean of two finite values is finite even when their sum is not)", exact));
             }
     }
     // big arrays (beyond 65536 elements) with closed-form letters, both directions
